@@ -1597,3 +1597,48 @@ def bits_of(t, width_hint=None):
             return [1 if any(lo <= base <= hi for lo, hi in t[3]) else 0]
         return None
     return None
+
+
+def prune(t, known=None, sub=None):
+    """simplify a term under its own path conditions: inside the arm of a case tree, every nested case distinction on the
+    same scrutinee (anywhere in the arm, including inside values) is cut down to what remains possible"""
+    known = known or {}
+    sub = sub or {}
+    if not isinstance(t, tuple) or not t:
+        return t
+    k = t[0]
+    if k == "cases":
+        s = prune(t[1], known, sub)
+        arms = []
+        for rs, x in t[3]:
+            r2 = rs_inter(rs, known[s]) if s in known else rs
+            if not r2:
+                continue
+            k2 = dict(known)
+            k2[s] = r2
+            arms.append((r2, prune(x, k2, sub)))
+        arms = [(rs, x) for rs, x in arms if x != ("unreachable",)] or arms
+        if len(arms) == 1:
+            return arms[0][1]
+        if s in known:
+            # keep the partition total over the scrutinee's type for canonical form
+            covered = rs_norm(tuple(r for rs, _ in arms for r in rs))
+            rest = rs_compl(covered, t[2])
+            if rest:
+                arms[-1] = (rs_norm(arms[-1][0] + rest), arms[-1][1])
+        return mk_cases(s, t[2], tuple(arms))
+    if k == "ite":
+        c = prune(t[1], known, sub)
+        if c in sub:
+            return prune(t[2] if sub[c] else t[3], known, sub)
+        sa, sb = dict(sub), dict(sub)
+        sa[c] = True
+        sb[c] = False
+        return ite(c, prune(t[2], known, sa), prune(t[3], known, sb))
+    if k == "vfld":
+        return vfld(prune(t[1], known, sub), t[2], t[3])
+    if k == "fld":
+        return fld(prune(t[1], known, sub), t[2])
+    if k in ("c", "p"):
+        return t
+    return tuple(prune(x, known, sub) if isinstance(x, tuple) else x for x in t)
